@@ -108,3 +108,14 @@ Definition bresolved_rel (k : Q) (r r' : Resolved XQ) : Prop :=
   bsz_rel (sc k) (rs_pb_size r) (rs_pb_size r') /\ brc_rel (sc k) (rs_cbi r) (rs_cbi r') /\
   bsz_rel (op_rel (sc k)) (rs_size r) (rs_size r') /\ bsz_rel (op_rel (sc k)) (rs_min r) (rs_min r') /\
   bsz_rel (op_rel (sc k)) (rs_max r) (rs_max r').
+
+(* the composition compute_inner performs around the in-flow loop (cf. Model/BlockRun.v, correspondence K2 of C10): the items
+   from the children's styles, the loop constants from the container's style and outer width, the loop over the items
+   paired with the children's LayoutOutputs, then the container's outer height, its two margin sets and its
+   collapse-through flag *)
+Definition block_container (st : BStyle XQ) (inp : BInput XQ) (outer_width : XQ) (styles : list (BStyle XQ))
+           (outs : list (ChildOut XQ)) : InflowOut XQ * XQ * (MarginSet XQ * MarginSet XQ) * bool :=
+  let items := generate_item_list styles (block_node_inner_size st inp) in
+  let io := block_inflow (block_params st inp outer_width) (combine items outs) in
+  (io, block_outer_height st inp (io_height io), block_output_margins st inp io,
+   block_can_collapse_through st inp (io_results io)).
